@@ -1023,6 +1023,17 @@ def check_chi2(ctx):
         option_on = guard is not None and 'ignore_empty' in txt(guard)
         n_mask += 1
         if option_on:
+            tol = _mask_tolerance(ctx.program, nzb, elt)
+            if tol is not None:
+                ctx.violated(
+                    'MASK-TABLE', nzb, f'kept-bin predicate '
+                    f'{txt(elt)[:70]}', at=nzb.where(ret),
+                    detail=f'the empty-bin test goes through a tolerance '
+                           f'(`{tol}`): a bin whose two errors are positive '
+                           f'but below it is left out, although exactly the '
+                           f'bins where both errors are ZERO are to be left '
+                           f'out (spectra of small magnitude lose bins)')
+                continue
             table = _mask_table(elt)
             required = {('eq', 'eq'): False, ('eq', 'gt'): True,
                         ('gt', 'eq'): True, ('gt', 'gt'): True}
@@ -1044,6 +1055,53 @@ def check_chi2(ctx):
                        f'kept: {txt(elt)[:60]}',
                        True if const_true else None, at=nzb.where(ret))
     ctx.floor('MASK-TABLE', n_mask, 2, 'returns of _nonzero_bins')
+
+
+def _mask_tolerance(program, func, expr, depth=0):
+    '''A tolerance call (isclose, round, ...) or a comparison of an error
+    with a small non-zero constant inside the mask expression, following
+    local names and helper functions of the module / class.'''
+    defs = {}
+    for node in walk_local(func.node):
+        if isinstance(node, ast.Assign) and len(node.targets) == 1 and \
+                isinstance(node.targets[0], ast.Name):
+            defs.setdefault(node.targets[0].id, []).append(node.value)
+    seen = set()
+    todo = [expr]
+    while todo:
+        cur = todo.pop()
+        for node in ast.walk(cur):
+            if isinstance(node, ast.Name) and node.id in defs and \
+                    node.id not in seen:
+                seen.add(node.id)
+                todo.extend(defs[node.id])
+            if isinstance(node, ast.Call):
+                cname = call_name(node)
+                if cname in TOLERANCE_CALLS:
+                    return txt(node)[:50]
+                if depth < 2:
+                    helper = None
+                    if isinstance(node.func, ast.Name):
+                        helper = program.maybe_func(
+                            f'{func.module.name}:{node.func.id}')
+                    elif isinstance(node.func, ast.Attribute) and txt(
+                            node.func.value) in ('self', 'cls') and \
+                            func.cls is not None:
+                        helper = func.cls.methods.get(node.func.attr)
+                    if helper is not None and helper is not func:
+                        for ret in _returns(helper):
+                            found = _mask_tolerance(program, helper,
+                                                    ret.value, depth + 1)
+                            if found is not None:
+                                return f'{helper.name}: {found}'
+            if isinstance(node, ast.Compare) and len(node.ops) == 1 and \
+                    isinstance(node.ops[0], (ast.Lt, ast.LtE, ast.Gt,
+                                             ast.GtE)):
+                for side in (node.left, node.comparators[0]):
+                    if isinstance(side, ast.Constant) and isinstance(
+                            side.value, float) and 0 < abs(side.value) < 1e-3:
+                        return txt(node)[:50]
+    return None
 
 
 def _mask_table(expr):
